@@ -27,7 +27,9 @@ TRUSTED = [
   'the five scheduling passes are not modelled as algorithms: their schedules are checked (topoB) and executed',
   'library stream: harness/common/pymtl2rtl.py (symbolic execution of update-block ASTs with PythonBits semantics into Model/Rtl.lean '
   'assignments; large shared sub-expressions bound to virtual wires with their own virtual comb blocks) is trusted glue; it is cross-checked '
-  'on every run by an independent Python evaluation of the translated dataflow (c01_lib.LibRefSim) against the real simulation',
+  'on every run by an independent Python evaluation of the translated dataflow (c01_lib.LibRefSim) against the real simulation; library designs '
+  'whose translated comb blocks fail wfBlocks (a target keeps its value on some path, so the block reads what it writes) are simulated and compared '
+  'but lie outside the hypotheses of the theorems (counted in library_summary.wfBlocks_fails)',
 ]
 ASSUMPTIONS = [
   'designs within the generated language: Bits signals, constant slices, one level of sub-components, nets, update/update_ff blocks; '
